@@ -683,6 +683,10 @@ func (bal *Balancer) balanceBlock(blkid arvados.SizedDigest, blk *BlockState) ba
 		replWant := 0
 		// Protected replication (corresponds to protMnt).
 		replProt := 0
+		// Devices whose replication is already counted in
+		// replProt. A device mounted on several servers holds
+		// only one copy.
+		protDev := map[string]bool{}
 
 		// trySlot tries using a slot to meet requirements,
 		// and returns true if all requirements are met.
@@ -697,7 +701,12 @@ func (bal *Balancer) balanceBlock(blkid arvados.SizedDigest, blk *BlockState) ba
 			if replProt < desired && slot.repl != nil && !protMnt[slot.mnt] {
 				unsafeToDelete[slot.repl.Mtime] = true
 				protMnt[slot.mnt] = true
-				replProt += slot.mnt.Replication
+				if !protDev[slot.mnt.DeviceID] {
+					replProt += slot.mnt.Replication
+				}
+				if slot.mnt.DeviceID != "" {
+					protDev[slot.mnt.DeviceID] = true
+				}
 			}
 			if replWant < desired && (slot.repl != nil || !slot.mnt.ReadOnly) {
 				slots[i].want = true
@@ -731,9 +740,13 @@ func (bal *Balancer) balanceBlock(blkid arvados.SizedDigest, blk *BlockState) ba
 
 		if !underreplicated {
 			safe := 0
+			safeDev := map[string]bool{}
 			for _, slot := range slots {
-				if slot.repl == nil || !bal.mountsByClass[class][slot.mnt] {
+				if slot.repl == nil || !bal.mountsByClass[class][slot.mnt] || safeDev[slot.mnt.DeviceID] {
 					continue
+				}
+				if slot.mnt.DeviceID != "" {
+					safeDev[slot.mnt.DeviceID] = true
 				}
 				if safe += slot.mnt.Replication; safe >= desired {
 					break
@@ -747,7 +760,7 @@ func (bal *Balancer) balanceBlock(blkid arvados.SizedDigest, blk *BlockState) ba
 		// haven't already been added to unsafeToDelete
 		// because the servers report different Mtimes.
 		for _, slot := range slots {
-			if slot.repl != nil && wantDev[slot.mnt.DeviceID] {
+			if slot.repl != nil && (wantDev[slot.mnt.DeviceID] || protDev[slot.mnt.DeviceID]) {
 				unsafeToDelete[slot.repl.Mtime] = true
 			}
 		}
